@@ -303,7 +303,7 @@ def _native_replay(unit, root, target_file, module, tests, timeout, tag):
     env['RUST_BACKTRACE'] = '0'
     rc, text, wall = run_group(cmd, root, env, timeout, os.path.join(root, f'play-{tag}.log'))
     open(p, 'w').write(s)
-    lines = [l for l in text.splitlines() if not re.match(r'^\s*(Compiling|warning|-->|\||=|\d+ \||Finished|Running)', l) and l.strip()]
+    lines = [l for l in text.splitlines() if not re.match(r'^\s*(Compiling|warning|-->|\||=|\d+ \||Finished|Running|\[lints\.rust\]|unexpected_cfgs)', l) and l.strip()]
     return {'ran': True, 'rc': rc, 'output': '\n'.join(lines)[-6000:], 'wall_s': wall}
 
 
